@@ -1,6 +1,7 @@
 package num
 
 import (
+	"encoding/json"
 	"errors"
 	"fmt"
 	"math"
@@ -388,15 +389,31 @@ func (a *Amount) UnmarshalText(value []byte) error {
 // UnmarshalJSON ensures amounts will be parsed even if defined as
 // numbers in the source JSON.
 func (a *Amount) UnmarshalJSON(value []byte) error {
-	return a.UnmarshalText(unquote(value))
+	text, null, err := jsonText(value)
+	if err != nil || null {
+		return err
+	}
+	amount, err := AmountFromString(text)
+	if err != nil {
+		return err
+	}
+	*a = amount
+
+	return nil
 }
 
-func unquote(value []byte) []byte {
-	// If the amount is quoted, strip the quotes
-	if len(value) > 2 && value[0] == '"' && value[len(value)-1] == '"' {
-		value = value[1 : len(value)-1]
+// jsonText provides the text to parse from a raw JSON value. A JSON string
+// is decoded, so that its value is used regardless of how it was escaped,
+// anything else, like a number, is provided as is. Only the JSON literal
+// null, as opposed to the string "null", is reported as null.
+func jsonText(value []byte) (text string, null bool, err error) {
+	if len(value) > 0 && value[0] == '"' {
+		if err := json.Unmarshal(value, &text); err != nil {
+			return "", false, err
+		}
+		return text, false, nil
 	}
-	return value
+	return string(value), string(value) == "null", nil
 }
 
 func rescaleAmountPair(a, a2 Amount) (Amount, Amount) {
